@@ -50,6 +50,7 @@ type Control struct {
 	DumpAt   []uint32 `json:"dumpAt"` // heights at which the full canonical dump digest is recorded
 	API      bool     `json:"api"`    // start the real API server and record its answers
 	APIAt    []uint32 `json:"apiAt"`  // heights after which the API is queried (default: the tip)
+	APILight []uint32 `json:"apiLight"` // heights after which only the ledger-level read methods are queried (issuance, rates, rich lists, bank)
 	AllHist  bool     `json:"allHist"`
 }
 
@@ -129,9 +130,16 @@ func cmdRun(args []string) {
 			die(70, "api: %v", err)
 		}
 	}
-	apiAt := map[uint32]bool{s.Tip: true}
+	apiAt := map[uint32]bool{}
+	if len(ctl.APILight) == 0 {
+		apiAt[s.Tip] = true // full observation (statuses, balances, all paged queries): needs allHist
+	}
 	for _, h := range ctl.APIAt {
 		apiAt[h] = true
+	}
+	apiLight := map[uint32]bool{}
+	for _, h := range ctl.APILight {
+		apiLight[h] = true
 	}
 	var seenHashes []string
 	seenHash := map[string]bool{}
@@ -188,16 +196,26 @@ func cmdRun(args []string) {
 					}
 				}
 				ev["api"] = r.ObserveAPI(h, seenHashes, addrs, hs)
+			} else if ctl.API && apiLight[h] {
+				ev["api"] = r.ObserveAPI(h, nil, nil, nil)
 			}
 			tw.emit(ev)
 		}
 		if restart[h] {
+			if ctl.API {
+				r.StopAPI()
+			}
 			if err := r.StopNode(); err != nil {
 				die(70, "stop: %v", err)
 			}
 			if err := r.StartNode(); err != nil {
 				tw.emit(map[string]interface{}{"ev": "Refused", "h": h, "err": err.Error()})
 				die(3, "restart: %v", err)
+			}
+			if ctl.API {
+				if err := r.StartAPI(); err != nil {
+					die(70, "api: %v", err)
+				}
 			}
 			tw.emit(map[string]interface{}{"ev": "Restart", "h": h})
 		}
